@@ -21,6 +21,7 @@ func init() {
 func checkC13(c *Ctx) {
 	p := c.P
 	checkC13BatchError(c)
+	checkC13AssocDistinct(c)
 	hooks := hookInterfaces(p)
 	execs, regs := executorSet(p)
 
@@ -250,7 +251,7 @@ func checkC13(c *Ctx) {
 		// error reaches AddError: the call is the argument of AddError
 		okErr, wrongHandle := false, false
 		for _, call := range callsIn(iv.f) {
-			if fn, _ := typeutil.Callee(iv.f.Pkg.TypesInfo, call).(*types.Func); fn != nil && fn.Name() == "AddError" && len(call.Args) == 1 && unparen(call.Args[0]) == ast.Expr(iv.call) {
+			if fn, _ := typeutil.Callee(iv.f.Pkg.TypesInfo, call).(*types.Func); fn != nil && fn.Name() == "AddError" && len(call.Args) == 1 && (unparen(call.Args[0]) == ast.Expr(iv.call) || isSingleDefOf(iv.f, call.Args[0], iv.call)) {
 				okErr = true
 				// recorded on the operation's handle: the receiver is not a parameter of the hook closure
 				// (its *gorm.DB parameter is the throw-away session handed to the hook)
@@ -650,4 +651,15 @@ func loopAnchor(loop *ast.ForStmt) token.Pos {
 		return loop.Body.List[0].Pos()
 	}
 	return loop.Pos()
+}
+
+// isSingleDefOf: e is a local with exactly one definition, and that definition is the call (so nothing can
+// overwrite the value between the call and the use).
+func isSingleDefOf(f *FuncSrc, e ast.Expr, call *ast.CallExpr) bool {
+	id, ok := unparen(e).(*ast.Ident)
+	if !ok {
+		return false
+	}
+	d := resolveLocal(f, id)
+	return d != nil && unparen(d) == ast.Expr(call)
 }
